@@ -195,9 +195,14 @@ class Layout:
             cchar = "!" if self.plain else None
 
             def c1():
-                """a comment line may start with C, c or * as well as with !: `C! text` is the doc comment `!! text`"""
-                if self.plain or rng.random() < 0.6:
+                """a comment line may start with C, c or * as well as with !: `C! text` is the doc comment `!! text`; a `!` comment may
+                also start in any column but 6 (such a line is a comment as a whole, however long it is)"""
+                r = rng.random()
+                if self.plain or r < 0.45:
                     return "!"
+                if r < 0.6:
+                    self.features.add("indented_doc_comment_line")
+                    return " " * rng.choice([1, 3, 6, 9]) + "!"
                 self.features.add("doc_comment_on_old_style_comment_line")
                 return rng.choice(["C", "c", "*"])
 
